@@ -100,11 +100,14 @@ META = {
              "attribute of Schema or Field objects; Config.__init__ allocates fresh containers; sub-configurations installed by default are fresh and linked. Mutable list/dict "
              "defaults (deep copy) and proxy copies are bounded.",
              ADOPT, "whole-heap frame obligations", assumptions=[ACYCLIC, ADOPT]),
-    "C14": M("other",
-             "Proved: load_tree skips a key whose environment variable is non-empty only through the field's env binding, and assignment has no such test. The naming function "
-             "(Field/Schema.__setkey__) and the environment branch of __setdefault__ are decided by the bounded driver: all 336 schema-level x field-level env combinations to "
-             "depth 3 against an independent reference, 24 field classes, variable unset/empty/valid/invalid.",
-             "str.upper law; os.environ", "bounded run-time contract checking of naming and precedence"),
+    "C14": M("proof",
+             "Field.__setkey__ and Schema.__setkey__ verified against the naming rule of the statement for every combination of field-level and schema-level settings "
+             "(opt-out stays out, explicit names kept, automatic name = parent prefix + '_' + upper-cased key, no prefix => no binding, nested schemas inherit); "
+             "Field._get_env_value: a value only for a bound, non-empty variable, validated by the field, ValidationError otherwise; Field.__setdefault__: variable beats "
+             "default, touches only its own key; load_tree skips exactly the bound non-empty keys while _set_value has no such test (assignment beats both). "
+             "List/Dict/Challenge overrides and end-to-end precedence over documents are additionally run by the bounded driver (336 setting combinations x 24 field classes).",
+             "str.upper is an uninterpreted function; os.environ is the ghost map env", "contracts on the two __setkey__ methods and the environment lookup",
+             externals=["os.environ"]),
     "C15": M("other",
              "Proved: the only exception class leaving Config._set_value/__setattr__ for a persistent declared field is ValidationError; undeclared keys raise AttributeError; "
              "sub-configurations know parent and key (so Config._ref_path can name the full path). The reference-path functions and the loads() routes are bounded "
